@@ -238,6 +238,112 @@ async def rereport_case(w, tables, tname, kind, label, row, first, second, raw_r
                 reports=[list(first), list(second)], handle=handle)
 
 
+# ------------------------------------------------------------------ several mixers / thermostats in one response
+def multi_configs(ctx):
+    quick = ctx["tier"] == "quick"
+    base = ctx["seed"] * 101
+    # last field: a client callback subscribed to the FIRST parameter of every sub-device raises on every notification
+    # (the later parameters of the same response must still take their newly reported bounds)
+    if quick:
+        cfgs = [(pd.PRODUCT_P, "mixer", 2, False), (pd.PRODUCT_P, "mixer", 5, False), (pd.PRODUCT_I, "mixer", 3, True),
+                (pd.PRODUCT_P, "mixer", 3, True), (pd.PRODUCT_P, "thermostat", 2, False), (pd.PRODUCT_P, "thermostat", 3, True)]
+        return [(pr, k, n, base + i, rz) for i, (pr, k, n, rz) in enumerate(cfgs)]
+    cfgs = [(pr, "mixer", n) for pr in (pd.PRODUCT_P, pd.PRODUCT_I) for n in (2, 3, 4, 5)] + [(pd.PRODUCT_P, "thermostat", n) for n in (2, 3)]
+    return [(pr, k, n, base + 10 * j + i, (i + j) % 2 == 1) for j in range(3) for i, (pr, k, n) in enumerate(cfgs)]
+
+
+def multi_triples(wr, rows, n):
+    """per sub-device, per row: a triple whose bounds differ from every other sub-device's (disjoint ranges for the
+    numbers, so a value inside one sub-device's range is outside every other's; switches: 0..1 / fixed)"""
+    out = []
+    order = list(range(n))
+    wr.shuffle(order)                          # which sub-device gets the low / high ranges
+    for s in range(n):
+        trs = []
+        for row in rows:
+            if row["switch"]:
+                trs.append([(0, 0, 1), (0, 0, 0), (1, 1, 1), (1, 0, 1)][(order[s] + len(trs)) % 4])
+                continue
+            step = 40 if row["size"] == 1 else 9000
+            lo = 5 + order[s] * step + wr.randrange(step // 4)
+            hi = lo + 2 + wr.randrange(step // 2)
+            trs.append((wr.randint(lo, hi), lo, hi))
+        out.append(trs)
+    return out
+
+
+async def multi_cases(ctx, tables, res, only=None):
+    """devices populated by ONE response describing 2..5 mixers / 2..3 thermostats whose triples differ per
+    sub-device; boundary requests on every sub-device, judged against the triple reported for THAT sub-device
+    (its own bounds and the bounds of the other sub-devices as requested values)"""
+    quick = ctx["tier"] == "quick"
+    out = []
+    sizes = [r["size"] for r in tables["tables"]["thermostat"]]
+    for product, kind, n, wseed, raising in (multi_configs(ctx) if not only else
+                                             [tuple(only["multi"].get(k, False) for k in ("product", "kind", "n", "wseed", "raising"))]):
+        tname = ("mixerP" if product == pd.PRODUCT_P else "mixerI") if kind == "mixer" else "thermostat"
+        rows = tables["tables"][tname]
+        wr = random.Random(wseed)
+        trip = multi_triples(wr, rows, n)
+        w = World()
+        await w.uid(product)
+        if kind == "thermostat":
+            await w.thermostats_available(n)
+
+        async def report():
+            if kind == "mixer":
+                await w.mixer_params(pd.mixer_payload(0, trip))
+            else:
+                await w.thermostat_params(pd.thermostat_payload(0, len(rows) * n + (1 if n > 1 else 0), (1, 0, 5), trip, sizes))
+            assert not w.errors, (w.errors, kind, n)
+
+        await report()
+        if raising:
+            async def boom(value):
+                raise RuntimeError("client callback fails")
+
+            for s in range(n):
+                w.device(f"{kind}{s}").subscribe(rows[0]["name"], boom)
+            trip = multi_triples(wr, rows, n)          # the controller now reports other bounds for everything
+            await report()
+        for s in range(n):
+            label = f"{kind}{s}"
+            picked = list(range(len(rows)))
+            if quick and not only:
+                wr.shuffle(picked)
+                picked = sorted(picked[:6]) + [i for i, r in enumerate(rows) if r["switch"]][:1]
+            for i in picked:
+                row = rows[i]
+                if only and (only["row"], only["multi"]["sub"]) != (row["name"], s):
+                    continue
+                value, lo, hi = trip[s][i]
+                if only:
+                    reqs = [only["value"]]
+                elif row["switch"]:
+                    reqs = ["on", "off", True, False]
+                else:
+                    raws = {lo - 1, lo, hi, hi + 1}
+                    for o in range(n):                   # in range for another sub-device, outside this one's
+                        if o != s:
+                            raws |= {trip[o][i][1], trip[o][i][2]}
+                    reqs = [shown(kind, row, r) for r in sorted(raws) if r >= 0]
+                for v in reqs:
+                    await report()
+                    dev = w.device(label)
+                    p = dev.data[row["name"]]
+                    route = only.get("via") if only else pick_route(len(out) + s, p, v)
+                    r, frames = await run_route(w, dev, p, row["name"], v, route)
+                    retries = 5 if route in ROUTES[4:] else 1
+                    after = dev.data[row["name"]].values.value
+                    obs, raised, tx = observe(kind, row, r, frames, trip[s][i], after, retries)
+                    res.count(f"several {kind}s in one response:{n}" + (" (a subscriber of the first parameter raises)" if raising else ""))
+                    out.append(dict(table=tname, row=row["name"], kind=kind, conv=pd.conv_words(kind, row), triple=list(trip[s][i]), value=v,
+                                    via=route, obs=obs, raised=raised, tx=tx, retries=retries, after=after, result=list(r),
+                                    multi=dict(product=product, kind=kind, n=n, sub=s, wseed=wseed, raising=raising)))
+        await w.shutdown()
+    return out
+
+
 async def run_async(ctx, res, only=None):
     tier = ctx["tier"]
     quick = tier == "quick"
@@ -245,7 +351,7 @@ async def run_async(ctx, res, only=None):
     tables = pd.load_tables()
     cases = []
     late_corr = []      # recorded after the per-case verdicts, so that they cannot crowd out concrete failing inputs
-    for product in (pd.PRODUCT_P, pd.PRODUCT_I):
+    for product in (pd.PRODUCT_P, pd.PRODUCT_I) if not (only and only.get("multi")) else ():
         w = World()
         await w.uid(product)
         st = {}
@@ -314,6 +420,9 @@ async def run_async(ctx, res, only=None):
                     cases.append(await rereport_case(w, tables, tname, kind, label, row, first, second, None, only["handle"], st, res,
                                                      value=only["value"]))
         await w.shutdown()
+    if only is None or only.get("multi"):
+        # after the per-row passes (whose route choice counts the cases so far)
+        cases.extend(await multi_cases(ctx, tables, res, only))
     lines = []
     for c in cases:
         val, lo, hi = c["triple"]
@@ -338,8 +447,11 @@ async def run_async(ctx, res, only=None):
                    value_token=pd.enc_val(c["value"]), via=c["via"], conv=c["conv"])
         if c.get("reports"):
             inp.update(reports=c["reports"], handle=c["handle"])
+        if c.get("multi"):
+            inp["multi"] = c["multi"]
         vt = type(c["value"]).__name__
-        res.case((c["conv"], c["table"], c["row"], tuple(c["triple"]), pd.enc_val(c["value"])), nontrivial=True)
+        res.case((c["conv"], c["table"], c["row"], tuple(c["triple"]), pd.enc_val(c["value"]))
+                 + ((c["multi"]["sub"], c["multi"]["n"]) if c.get("multi") else ()), nontrivial=True)
         res.count("value:" + vt)
         res.count("outcome:" + c["obs"].split()[0].split(":")[0])
         res.count("via:" + c["via"])
@@ -650,7 +762,9 @@ def run(ctx):
     res.rule = ("every description of every table x triples (random; quick 1 + 1 degenerate, thorough 6 + 8 degenerate: min=max, min>max, "
                 "value outside its bounds, full range) reported by a real response frame x requested values: display(raw) for raw in "
                 "{min-1,min,min+1,max-1,max,max+1,value,value+1,0,top,top+1}, each +-1 ulp, +0.5 step, +0.4999999 step, -0.5000001 step, "
-                "the int form, True/False, 'on'/'off', random floats [quick: 24 sampled per triple]; every 5th call through Device.set. "
+                "the int form, True/False, 'on'/'off', random floats [quick: 24 sampled per triple]; every 5th call through Device.set; "
+                "PLUS devices populated by ONE response for 2..5 mixers / 2..3 thermostats with disjoint ranges per sub-device: own bounds +-1 and "
+                "every other sub-device's bounds requested on each sub-device, judged against the triple reported for THAT sub-device. "
                 "distinct = (conversion, table, row, triple, value); all non-trivial (a real set call on a real parameter)")
     hres = Result("C06")
     pd.run(run_histories(ctx, hres))      # first: its failures must not be crowded out by the 200-failure cap
@@ -688,5 +802,6 @@ def replay(ctx):
         a, b = body.split("/")
         v = int(a) / int(b)
     pd.run(run_async(dict(ctx, tier="quick"), res, only=dict(table=inp["table"], row=inp["row"], triple=inp["triple"], value=v, via=inp.get("via"),
-                                                              reports=inp.get("reports"), handle=inp.get("handle", "device.data"))))
+                                                              reports=inp.get("reports"), handle=inp.get("handle", "device.data"),
+                                                              multi=inp.get("multi"))))
     return res
